@@ -467,3 +467,17 @@ pub fn t_dedup_by_then_with(a: u64, b: u64, c: u64) -> u64 {
     let o = small(a).cmp(&small(b)).then(small(b).cmp(&small(c))).reverse();
     first * 1000 + (v.len() as u64) * 100 + (w.len() as u64) * 10 + (o as i8 + 1) as u64
 }
+
+pub fn t_chunks_copy(a: u64, b: u64, c: u64) -> u64 {
+    let bytes = [a.to_le_bytes(), b.to_le_bytes()].concat();
+    let n = (small(c) % 5 + 1) as usize;
+    let data = &bytes[..(small(a) as usize + 6)];
+    let mut acc = 0u64;
+    for ch in data.chunks(n) {
+        acc = acc * 7 + ch.len() as u64 + ch[0] as u64;
+    }
+    let ex = data.chunks_exact(n).count() as u64;
+    let mut four = [0u8; 4];
+    four.copy_from_slice(&data[..(small(b) as usize % 6)]);
+    acc * 1000 + ex * 10 + four[3] as u64
+}
